@@ -22,11 +22,13 @@ def job(args):
     import numpy as np
     out = {"jid": jid, "viol": [], "evals": 0}
     d = os.path.join(base, "m%d" % jid)
+    shutil.rmtree(d, ignore_errors=True)      # a re-run of this job (after a time-out) starts clean
     os.makedirs(d)
     cwd = os.getcwd()
     try:
         for ci, c in enumerate(cases):
             root = os.path.join(d, "c%d" % ci)
+            shutil.rmtree(root, ignore_errors=True)      # a re-run of this job (after a time-out) starts clean
             os.makedirs(root)
             paths = []
             want = []
